@@ -17,10 +17,13 @@ import (
 // on every path that ends without an error that sequence must spell a well-formed JSON
 // document (encoding/json.Valid on the reconstructed text): no missing or extra separators,
 // no trailing comma, balanced braces (C02, C01).
-func T3StructSyntax(p *AsmProg) func(x *Exec) {
+func T3StructSyntax(p *AsmProg, alphabet string) func(x *Exec) {
 	return func(x *Exec) {
 		const nmax = 16
-		e := x.t3Setup(p, nmax, []byte{'{', '}', '"', ':', ',', '1', 'n'}, 16)
+		if alphabet == "" {
+			alphabet = "{}\":,1n"
+		}
+		e := x.t3Setup(p, nmax, []byte(alphabet), 32)
 		s := x.st
 		x.assume(s.Eq(e.ic0, x.c64(0)))
 		e.st.Lenient = true
@@ -32,7 +35,10 @@ func T3StructSyntax(p *AsmProg) func(x *Exec) {
 		var toks []byte
 		prev := -1
 		open := byte('{')
-		finished, failed := false, false
+		finished, failed, unmodelled := false, false, ""
+		silent := map[string]bool{"lspace": true, "save": true, "load": true, "drop": true, "drop_2": true, "index": true, "goto": true,
+			"slice_init": true, "slice_append": true, "map_init": true, "array_clear": true, "array_clear_p": true,
+			"nil_1": true, "nil_2": true, "nil_3": true, "deref": true, "make_state": true}
 		valueTok := func(op string) byte {
 			switch {
 			case op == "bool":
@@ -54,9 +60,14 @@ func T3StructSyntax(p *AsmProg) func(x *Exec) {
 					if o.I == 1 && prev > 0 && k == prev+1 {
 						toks = append(toks, open)
 					}
-				case "check_char":
+				case "check_char", "check_empty":
 					if k == o.I && k != prev+1 {
 						toks = append(toks, byte(o.B))
+					}
+				case "array_skip":
+					// skips the surplus elements and the closing bracket
+					if k == prev+1 {
+						toks = append(toks, 'R')
 					}
 				case "match_char":
 					if k == prev+1 {
@@ -90,8 +101,17 @@ func T3StructSyntax(p *AsmProg) func(x *Exec) {
 				case "dismatch_err", "go_skip":
 					failed = true
 				default:
-					if t := valueTok(o.Op); t != 0 && k == prev+1 {
-						toks = append(toks, t)
+					if strings.HasPrefix(o.Op, "map_key_") {
+						// the key text and its closing quote are consumed inside the opcode
+						if k == prev+1 {
+							toks = append(toks, 'M')
+						}
+					} else if t := valueTok(o.Op); t != 0 {
+						if k == prev+1 {
+							toks = append(toks, t)
+						}
+					} else if !silent[o.Op] {
+						unmodelled = o.Op
 					}
 				}
 			}
@@ -193,7 +213,7 @@ func T3StructSyntax(p *AsmProg) func(x *Exec) {
 					e.clobberCallerSaved()
 					st.R["AX"] = x.junk(64)
 					return true
-				case sym.Name == "native.skip_one":
+				case sym.Name == "native.skip_one" || sym.Name == "native.skip_array" || sym.Name == "native.skip_object":
 					icp, ok := st.R["SI"].(Ptr)
 					if !ok {
 						x.notEncoded("skip_one: cursor pointer")
@@ -231,6 +251,10 @@ func T3StructSyntax(p *AsmProg) func(x *Exec) {
 		if !finished || failed {
 			return
 		}
+		if unmodelled != "" {
+			x.note("t3-syntax-unmodelled-op:" + unmodelled)
+			return
+		}
 		x.asmPos = p.Name + " at exit"
 		text := T3TokensToText(toks)
 		if len(toks) > 24 {
@@ -248,7 +272,7 @@ func T3StructSyntax(p *AsmProg) func(x *Exec) {
 				c = s.BAnd(c, s.Eq(ti, s.Const(8, uint64(v))))
 			}
 			x.assume(c)
-			x.check(s.False, "assert", fmt.Sprintf("generated struct decoder accepts a structurally malformed document: %s", text))
+			x.check(s.False, "assert", fmt.Sprintf("generated decoder accepts a structurally malformed document: %s", text))
 		}
 		x.covers["accepted"] = true
 		if strings.Contains(text, ",") {
@@ -268,6 +292,10 @@ func T3TokensToText(toks []byte) string {
 			b.WriteString("null")
 		case 'i', 's':
 			b.WriteString("1")
+		case 'R':
+			b.WriteString("1]")
+		case 'M':
+			b.WriteString("1\"")
 		case 'b':
 			b.WriteString("true")
 		case 't':
